@@ -22,10 +22,11 @@ ALL_DATA = sorted(set(FUZZY_OPERATORS + ARITH + CONVERSIONS))
 SELECT = {
     "C03": (ALL_DATA, {"kind", "mask", "value", "invariant", "callsite"}),
     "C04": ("fuzzy", {"fuzzy_range", "invariant", "callsite"}),
-    "C05": (ALL_DATA, {"shape", "invariant", "callsite"}),
-    "C06": (FUZZY_OPERATORS, {"value", "raises", "raises_only", "invariant", "callsite"}),
-    "C07": (ARITH, {"value", "dtype", "raises", "raises_only", "invariant", "callsite"}),
-    "C08": (CONVERSIONS, {"value", "raises", "raises_only", "invariant", "callsite"}),
+    # C05: shape, plus the pointwise mask/value clauses (the equivariance under a cell bijection follows from them)
+    "C05": (ALL_DATA, {"shape", "mask", "value", "invariant", "callsite"}),
+    "C06": (FUZZY_OPERATORS, {"value", "mask", "raises", "raises_only", "invariant", "callsite"}),
+    "C07": (ARITH, {"value", "mask", "dtype", "raises", "raises_only", "invariant", "callsite"}),
+    "C08": (CONVERSIONS, {"value", "mask", "raises", "raises_only", "invariant", "callsite"}),
     "C09": (ALL_DATA + ["PrintVars"], {"frame", "invariant"}),
     "C01cmd": (ALL_DATA + ["PrintVars"], {"touches"}),
     "C02cmd": (ALL_DATA, {"kind", "dtype", "fuzzy_range"}),
@@ -43,9 +44,53 @@ def _clause_of(r):
     return k or "other"
 
 
+HELPERS_FOR = {
+    "C03": ["insure_fuzzy", "make_masked"],
+    "C04": ["insure_fuzzy"],
+    "C05": ["validate_array_shapes", "insure_fuzzy", "make_masked"],
+    "C06": ["validate_array_shapes"],
+    "C07": ["validate_array_shapes"],
+    "C08": ["insure_fuzzy"],
+    "C09": ["insure_fuzzy", "make_masked", "validate_array_shapes"],
+}
+
+
+def _verify_helper(name, root):
+    from . import helperprops
+
+    t0 = time.time()
+    repo = Repo(root)
+    registry.load(repo)
+    key, fn = helperprops.HELPERS[name]
+    out = {"command": "helper:" + name, "records": [], "error": None, "unsupported": None, "function": None, "wall_s": 0, "helper": True}
+    if not repo.has_func(key):
+        out["error"] = "function %s not found" % key
+        return out
+    out["function"] = repo.func(key).describe()
+    # the body is verified against its own contract: the contract is not applied to itself
+    eng = Engine(repo, {k: v for k, v in S.CONTRACTS.items() if k != key}, S.LOOPS)
+    try:
+        fn(eng)
+    except Unsupported as e:
+        out["unsupported"] = str(e)
+    except Exception as e:
+        import traceback
+
+        out["error"] = "%s: %s\n%s" % (type(e).__name__, e, traceback.format_exc()[-1200:])
+    for r in eng.results:
+        rec = {k: v for k, v in r.items() if k not in ("model_obj", "state")}
+        rec["clause"] = "helper"
+        out["records"].append(rec)
+    out["assumed"] = sorted("%s:%s" % a for a in eng.assumed_used)
+    out["wall_s"] = round(time.time() - t0, 2)
+    return out
+
+
 def _verify_one(args):
     """worker: verify one command; returns serialisable VC records (+ concrete cases for counter-models)."""
     name, root = args
+    if name.startswith("helper:"):
+        return _verify_helper(name[len("helper:"):], root)
     t0 = time.time()
     repo = Repo(root)
     SPECS, classes = registry.load(repo)
@@ -142,79 +187,141 @@ def evaluate_cases(tasks, root, workers=16):
 
 
 # --------------------------------------------------------------------------- bounded battery (labelled bounded)
-VALUES_F = [-1.0, -0.5, 0.0, 0.25, 1.0, 2.5]
-VALUES_FZ = [-1.0, -0.4, 0.0, 0.3, 1.0]
-VALUES_I = [-2, 0, 1, 3]
+VALUES_F = [-1.0, -0.5, 0.0, 0.25, 1.0, 2.5, 2.6]
+VALUES_FZ = [-1.0, -0.5, -0.4, 0.0, 0.3, 1.0]
+VALUES_I = [-2, 0, 1, 3, 2]
+SHAPES_QUICK = [[3], [2, 2], [1, 3], [2, 1, 2]]
+SHAPES_FOCUS = SHAPES_QUICK + [[4], [3, 1], [2, 3, 2], [1, 1, 3], [5], [2, 2, 2]]
 
 
-def battery(repo, classes, name, tier, seed=0):
-    """Systematic small concrete cases for one command (bounded stand-in / cross-check of the axioms)."""
+def _size(shape):
+    n = 1
+    for d in shape:
+        n *= d
+    return n
+
+
+def battery(repo, classes, name, tier, seed=0, focus=False):
+    """Systematic small concrete cases for one command (bounded stand-in / cross-check of the axioms).
+    focus=True: the larger, more varied set used when the proof of this command is undecided and in the thorough tier."""
     import random
 
-    rnd = random.Random(1000003 * seed + hash(name) % 1000)
+    rnd = random.Random(1000003 * seed + sum(ord(ch) for ch in name))
     decl = CommandDecl(repo, classes[name])
-    ncases = 12 if tier == "quick" else 60
+    ncases = 300 if focus else (16 if tier == "quick" else 80)
+    shapes = SHAPES_FOCUS if (focus or tier != "quick") else SHAPES_QUICK
     cases = []
-    shapes = [[3], [2, 2], [1, 3]] if tier != "quick" else [[3], [2, 2]]
+    has_cats = "RawValues" in decl.inputs and "IgnoreZeros" not in decl.inputs
     for i in range(ncases):
         shape = shapes[i % len(shapes)]
-        N = 1
-        for d in shape:
-            N *= d
+        N = _size(shape)
         case = {"module": classes[name].module.dotted, "class": name, "inputs": {}, "params": {}, "shape": shape}
+        style = rnd.choice(["plain", "plain", "largeclose", "dups", "frac"])
+        maskstyle = rnd.choice(["none", "same", "staggered", "random", "random"])
+        same_mask = [rnd.random() < 0.35 for _ in range(N)]
+        if all(same_mask):
+            same_mask[rnd.randrange(N)] = False
+        raws = None
+        if has_cats:
+            ln = rnd.choice([1, 2, 3])
+            pool = [250000, 250001, 250002, 250003, 250004] if style == "largeclose" else [-2, -1, 0, 0.5, 1, 2, 3]
+            raws = rnd.sample(pool, ln)
+        counter = [0]
 
-        def arr(fuzzy, dtype=None):
+        def arr(fuzzy, sh, dtype=None):
+            n_ = _size(sh)
             if fuzzy:
                 dt, vals = "float", VALUES_FZ
             else:
                 dt = dtype or rnd.choice(["int", "float"])
                 vals = VALUES_I if dt == "int" else VALUES_F
-            data = [rnd.choice(vals) for _ in range(N)]
-            mask = [rnd.random() < 0.3 for _ in range(N)]
+                if style == "largeclose":
+                    vals = [250000, 250001, 250002, 250003] if dt == "int" else [250000.0, 250001.0, 250002.0, 250003.0]
+                elif style == "frac" and dt == "float":
+                    vals = [0.4, 1.4, 2.0000001, 2.6, 3.0]
+            data = [rnd.choice(vals) for _ in range(n_)]
+            if style == "dups":
+                data = [data[0]] * (n_ - 1) + [data[-1]]
+            idx = counter[0]
+            counter[0] += 1
+            if maskstyle == "none":
+                mask = [False] * n_
+            elif maskstyle == "same":
+                mask = (same_mask * 3)[:n_]
+            elif maskstyle == "staggered":
+                mask = [(j == idx % n_) for j in range(n_)]
+            else:
+                mask = [rnd.random() < 0.3 for _ in range(n_)]
             if all(mask):
-                mask[rnd.randrange(N)] = False
-            # payload under masked cells: something loud
-            data = [(977 if dt == "int" else 977.5) if m else v for v, m in zip(data, mask)]
+                mask[rnd.randrange(n_)] = False
+            # payload under masked cells: loud, or colliding with a category / a plausible value
+            pay = rnd.choice(["loud", "collide", "loud"])
+            loud = 977 if dt == "int" else 977.5
+            if fuzzy:
+                loud = 5.5
+            coll = (raws[0] if raws else (vals[0]))
+            if dt == "int":
+                coll = int(coll)
+            data = [((coll if pay == "collide" else loud) if m else v) for v, m in zip(data, mask)]
             return {"dtype": dt, "data": data, "mask": mask, "fuzzy": bool(fuzzy)}
 
-        nlist = rnd.choice([1, 2, 3]) if i % 7 else rnd.choice([1, 4])
+        nlist = rnd.choice([1, 2, 2, 3, 3, 4, 5]) if (focus or tier != "quick") else rnd.choice([1, 2, 3, 3, 4])
         for pname, p in decl.inputs.items():
             if pname == "Metadata":
                 continue
             opt_absent = (not p.required) and rnd.random() < 0.5
             if p.cls == "ResultParameter":
-                a = arr(p.is_fuzzy is True)
+                a = arr(p.is_fuzzy is True, shape)
                 a["kind"] = "single"
                 case["inputs"][pname] = a
             elif p.cls == "ListParameter" and isinstance(p.value_type, ParamDecl) and p.value_type.cls == "ResultParameter":
-                case["inputs"][pname] = {"kind": "list", "items": [arr(p.value_type.is_fuzzy is True) for _ in range(nlist)]}
+                items = []
+                for _k in range(nlist):
+                    sh = shape
+                    if _k > 0 and rnd.random() < 0.06:
+                        sh = rnd.choice([[N, 1], [1, N], [N + 1]]) if len(shape) == 1 else [N]
+                    it = arr(p.value_type.is_fuzzy is True, sh)
+                    if sh is not shape and list(sh) != list(shape):
+                        it["shape"] = sh
+                    items.append(it)
+                case["inputs"][pname] = {"kind": "list", "items": items}
             elif p.cls == "ListParameter":
-                ln = nlist if pname == "Weights" else rnd.choice([2, 3])
-                if pname in ("NormalValues", "FuzzyValues") and "IgnoreZeros" in decl.inputs:
-                    ln = 5
-                vals = [rnd.choice([-1.5, -1, 0, 0.5, 1, 2, 3]) for _ in range(ln)]
+                if pname == "Weights":
+                    ln = nlist if rnd.random() < 0.9 else nlist + 1
+                    vals = [rnd.choice([1, 2, 0.5, 1.5, -1, 0, 3]) for _ in range(ln)]
+                elif pname == "RawValues":
+                    vals = list(raws)
+                elif "IgnoreZeros" in decl.inputs:
+                    vals = [rnd.choice([-1.5, -1, -0.5, 0, 0.5, 1, 2]) for _ in range(5)]
+                else:
+                    ln = len(raws) if raws is not None else rnd.choice([2, 3])
+                    if rnd.random() < 0.07:
+                        ln += 1
+                    vals = [rnd.choice([-40, -1.5, -1, 0, 0.5, 1, 2.5, 3]) for _ in range(ln)]
+                    if pname == "ZScoreValues":
+                        vals = rnd.sample([-2, -1, -0.5, 0, 0.5, 1, 2], min(ln, 3))
                 case["params"][pname] = vals
             elif opt_absent:
                 continue
             elif p.cls == "NumberParameter":
-                case["params"][pname] = rnd.choice([-2, -0.5, 0, 0.75, 1, 2, 3.5])
                 if pname == "NumberToConsider":
-                    case["params"][pname] = rnd.choice([1, 2, nlist])
+                    case["params"][pname] = rnd.choice([1, 2, nlist, nlist, nlist + 1])
+                elif "Default" in pname:
+                    case["params"][pname] = rnd.choice([-40, -1, 0, 0.1, 1, 2.5])
+                else:
+                    case["params"][pname] = rnd.choice([-2, -0.5, 0, 0, 0.75, 1, 2, 3, 3.5, 5])
             elif p.cls == "StringParameter":
                 if pname == "Direction":
-                    case["params"][pname] = rnd.choice(["LowToHigh", "HighToLow", "HighToLow", "Sideways"])
+                    case["params"][pname] = rnd.choice(["LowToHigh", "HighToLow", "HighToLow", "LowToHigh", "Sideways"])
                 elif pname == "TruestOrFalsest":
-                    case["params"][pname] = rnd.choice(["Truest", "Falsest", "Middle"])
+                    case["params"][pname] = rnd.choice(["Truest", "Falsest", "Truest", "Falsest", "Middle"])
                 else:
                     case["params"][pname] = "x"
             elif p.cls == "BooleanParameter":
                 case["params"][pname] = rnd.choice([True, False])
-        # list-length agreement for value tables
-        for a, b in (("RawValues", "NormalValues"), ("RawValues", "FuzzyValues"), ("ZScoreValues", "NormalValues"), ("ZScoreValues", "FuzzyValues")):
-            if a in case["params"] and b in case["params"] and "IgnoreZeros" not in decl.inputs:
+        for a, b in (("ZScoreValues", "NormalValues"), ("ZScoreValues", "FuzzyValues")):
+            if a in case["params"] and b in case["params"] and rnd.random() < 0.93:
                 ln = len(case["params"][a])
-                raws = rnd.sample([-2, -1, 0, 0.5, 1, 2, 3], ln)
-                case["params"][a] = raws
                 case["params"][b] = (case["params"][b] * 3)[:ln]
         cases.append(case)
     return cases
